@@ -39,16 +39,6 @@ theorem Broken.not_nGood {s : St} {k : Key} {n : Node} (h : Broken s k) (hn : s.
   · rw [h] at hn; cases hn
   · exact not_nGood_of_broken hn' hm hnd hne
 
-/-- why the executor of `k` runs in `s`: justified, or forced by a pending backward projection below -/
-def Why (p : Program) (s : St) (k : Key) : Prop :=
-  Just p s k ∨ (¬ Verified s k ∧ ∃ n f o, s.nodes k = some n ∧ n.kind = .projection ∧ (f, o) ∈ n.deps ∧
-    hasPending s f = true)
-
-theorem Why.not_verified {p : Program} {s : St} {k : Key} (h : Why p s k) : ¬ Verified s k := by
-  rcases h with h | h
-  · exact h.1
-  · exact h.1
-
 /-- a projection that is not verified and has a callee with a pending backward projection is not `Solid` -/
 theorem not_solid_of_pending {s : St} {k : Key} {n : Node} (hn : s.nodes k = some n)
     (hk : n.kind = .projection) (hnv : n.lastVerified ≠ s.epoch) {f : Key} {o : Val}
@@ -88,7 +78,7 @@ theorem projTfcChanged_of_not_proj {s : St} {k : Key} {t : List Key}
     broken, or it is a projection re-executed by backward projection) -/
 theorem publish_spec {p : Program} {k : Key} {d : NodeDef} (hp : p[k]? = some d)
     (hki : d.kind ≠ .input) (hke : d.kind ≠ .external)
-    {s1 : St} (i1 : Inv p s1) (hwhy : Why p s1 k) (hns : ¬ Solid s1 k)
+    {s1 : St} (i1 : Inv p s1) (hwhy : Just p s1 k) (hns : ¬ Solid s1 k)
     (hng : ∀ n, s1.nodes k = some n → n.kind = .normal → ¬ NGood s1 k) {a : Acc} {v : Val}
     (hacc : AccOK p k s1 a) (htr : TraceOK d.prog a.deps v)
     (hpj : NoProjOverProj p → d.kind = .projection →
@@ -471,7 +461,7 @@ theorem publish_spec {p : Program} {k : Key} {d : NodeDef} (hp : p[k]? = some d)
       have : x ≠ k := fun e => hns (e ▸ hsx)
       exact ⟨nx, by rw [n3o x this]; exact hx, rfl, rfl, rfl, rfl, rfl, id⟩
     · intro x nx hx hvx
-      have : x ≠ k := fun e => by subst e; exact hwhy.not_verified ⟨nx, hx, hvx⟩
+      have : x ≠ k := fun e => by subst e; exact hwhy.1 ⟨nx, hx, hvx⟩
       exact ⟨nx, by rw [n3o x this]; exact hx, rfl, rfl⟩
     · intro x nx' hx' hpd
       by_cases e : x = k
@@ -500,10 +490,7 @@ theorem publish_spec {p : Program} {k : Key} {d : NodeDef} (hp : p[k]? = some d)
       · exact Or.inl (n3o x e)
     · refine ⟨[k], l3, by simp, fun x hx => ?_, fun x hx hx' => ?_⟩
       · rw [List.mem_singleton] at hx; subst hx
-        refine ⟨?_, nn, n3k, e3.symm⟩
-        rcases hwhy with h | ⟨hnv, n, f, o, hn, hk, hm, hpe⟩
-        · exact Or.inl h
-        · exact Or.inr ⟨hnv, n, f, o, hn, hk, hm, Or.inl hpe⟩
+        exact ⟨hwhy, nn, n3k, e3.symm⟩
       · rw [List.mem_singleton]
         false_or_by_contra
         rename_i e
